@@ -573,4 +573,36 @@ theorem restoring_first_loses_the_locus_tag :
     Q.get? (extWriteRestoreFirst [("aSTool", ["external"]), ("locus_tag", ["CDS_motif"]), ("note", ["n"]), ("protein_end", ["1"]), ("protein_start", ["0"])]
                                  [("locus_tag", ["extmotif1"]), ("note", ["n"])]) "locus_tag" = none := by decide +kernel
 
+/-- why the consumed keys of an external motif are harmless for the round trip: the `original_qualifiers` of a motif
+    *in a record* never hold a consumed key (they were consumed when the motif was made), and for such a motif reading
+    the written feature gives the same `original_qualifiers` back — as a mapping — whatever attribute qualifiers the
+    parent classes added; hence the second write repeats the first.  `hw`: outside the consumed and placeholder keys the
+    parent classes write the motif's own dictionary (`_qualifiers` is that same dictionary). -/
+theorem external_motif_originals_come_back (written original : Quals) (h : Q.Nodup original)
+    (ho : ∀ k ∈ extConsumed, Q.get? original k = none)
+    (hw : ∀ k, k ∉ extConsumed → k ∉ extPlaceholders → Q.get? written k = Q.get? original k) (k : String) :
+    Q.get? (extOriginal (extWrite written original)) k = Q.get? original k := by
+  unfold extOriginal extWrite
+  rw [get?_eraseAll]
+  by_cases hc : k ∈ extConsumed
+  · simp [hc, ho k hc]
+  · simp only [hc, if_false]
+    rw [Q.get?_update _ _ h]
+    cases hk : Q.get? original k with
+    | some v => rfl
+    | none =>
+      simp only
+      rw [get?_eraseAll]
+      by_cases hp : k ∈ extPlaceholders
+      · simp [hp]
+      · simp only [hp, if_false]
+        rw [hw k hc hp, hk]
+
+/-- the reported input: a motif arriving with `protein_start` / `protein_end` / `domain_id` — in the record its originals
+    are already without them, and they come back exactly -/
+example : extOriginal [("locus_tag", ["m1"]), ("protein_start", ["5"]), ("protein_end", ["9"]), ("domain_id", ["x"]), ("note", ["n"])]
+      = [("locus_tag", ["m1"]), ("note", ["n"])] ∧
+    extOriginal (extWrite [("aSTool", ["external"]), ("locus_tag", ["CDS_motif"]), ("note", ["n"]), ("protein_end", ["1"]), ("protein_start", ["0"])]
+                          [("locus_tag", ["m1"]), ("note", ["n"])]) = [("note", ["n"]), ("locus_tag", ["m1"])] := by decide +kernel
+
 end ASV.C10
